@@ -35,6 +35,7 @@ def build(r, name, generics=None):
     if len(set(names)) != len(names):
         return None
     gen.add_noise(r, spec, skip=("serialize",))
+    gen.maybe_macro_wrap(r, spec)
     for v in spec.variants:
         if r.random() < 0.15 and not v.serialize:
             v.to_string = "noise name %s" % v.ident      # method names come from the identifier, never from the spelling
